@@ -166,7 +166,7 @@ def _search_cases(tier, width_mode="any", fusion_mode="any"):
         T = draw(st.sampled_from([3, 5, 4, 2, 1, 0, 6, 7]))
         T = min(T, maxT[V])
         N = draw(st.sampled_from([2, 1, 3]))
-        kind = draw(st.sampled_from(["generic", "dominant", "identical_frames", "tiny_prob", "generic"]))
+        kind = draw(st.sampled_from(["generic", "dominant", "identical_frames", "tiny_prob", "zero_prob", "generic"]))
         frame = st.lists(st.integers(-12, 12), min_size=V + 1, max_size=V + 1)
         logits = [[list(draw(frame)) for _ in range(N)] for _ in range(T)]
         if kind == "dominant" and T:
@@ -180,6 +180,12 @@ def _search_cases(tier, width_mode="any", fusion_mode="any"):
         if kind == "tiny_prob" and T:
             t0, n0, v0 = draw(st.integers(0, T - 1)), draw(st.integers(0, N - 1)), draw(st.integers(0, V))
             logits[t0][n0][v0] = -120  # logit -30: probability about 1e-13, not zero
+        if kind == "zero_prob" and T:
+            # logit -120: exp(-120) is below the smallest float32, so the label's probability is exactly zero there
+            # (about 1e-52 for the float64 oracle, far below the threshold under which nothing is claimed)
+            for _ in range(draw(st.sampled_from([1, 2]))):
+                t0, n0, v0 = draw(st.integers(0, T - 1)), draw(st.integers(0, N - 1)), draw(st.integers(0, V))
+                logits[t0][n0][v0] = -480
         lens = draw(st.one_of(st.lists(st.integers(0, T), min_size=N, max_size=N), st.none()))
         R = reachable(V, T)
         if width_mode == "wide":
@@ -256,13 +262,13 @@ def _search_check(case):
 
 
 subcheck("C05", "search", lambda tier: _search_cases(tier), 1200, 30000,
-         doc="generated logits on a k/4 grid (classes generic / dominant label / identical frames / one ~1e-13 probability), T 0..4-6|5-7 "
+         doc="generated logits on a k/4 grid (classes generic / dominant label / identical frames / one ~1e-13 probability / exactly-zero float32 probability), T 0..4-6|5-7 "
              "(longer for smaller V), "
              "V 1..3 (+blank), N 1..3, lens unset or mixed incl. 0, widths 1..far beyond, fusion none/shallow/valid mixture with a "
              "HashLM; oracle = complete alignment enumeration (exact mass) + dictionary prefix-beam recursion of the same width; "
              "batched vs solo",
          required_classes=["width_exceeds_live_prefixes", "merge_event", "mixed_lengths", "fusion_active", "never_pruned",
-                           "pruned_unambiguous", "zero_length_element", "logits_tiny_prob"])(_search_check)
+                           "pruned_unambiguous", "zero_length_element", "logits_tiny_prob", "logits_zero_prob"])(_search_check)
 
 subcheck("C05", "wide", lambda tier: _search_cases(tier, width_mode="wide", fusion_mode="none"), 800, 20000,
          doc="widths from the number of reachable prefixes to far beyond it, no fusion: exact mass for every prefix, empty slots "
